@@ -106,4 +106,22 @@ var specs = []CheckSpec{
 		Assumptions: append([]string{"${K@R}: 'matches exactly' is reduced to the contract of regexp.QuoteMeta (every metacharacter escaped), interpreted from its SSA; the regexp engine itself is not encoded", "programs see ts.env with os/exec's documented last-entry-wins rule"}, commonAssumptions...),
 		Outside:     []string{"Windows case folding of variable names", "malformed references such as ${ or $ at end of word (os.Expand's documented behaviour)", "the regexp matcher"},
 	},
+	{
+		ID: "C05", Pkg: "cache",
+		Harnesses: []HarnessSpec{
+			{Fn: "VerifC05History", Quick: map[string]int{"OPS": 3, "L": 1, "DAMAGE": 0}, Thorough: map[string]int{"OPS": 3, "L": 2, "DAMAGE": 0}, Witness: []string{"put", "getbytes-hit", "getfile-hit", "getbytes-miss"}},
+			{Fn: "VerifC05HistoryDamage", Quick: map[string]int{"OPS": 2, "L": 1, "DPOS": 2}, Thorough: map[string]int{"OPS": 2, "L": 1, "DPOS": 15}, Witness: []string{"put", "damaged"}},
+			{Fn: "VerifC05Repair", Quick: map[string]int{"L": 1, "DPOS": 4}, Thorough: map[string]int{"L": 2, "DPOS": 15}, Witness: []string{"repaired"}},
+			{Fn: "VerifC05Entry", Quick: map[string]int{"W": 2, "STRIDE": 8, "L": 1}, Thorough: map[string]int{"W": 2, "STRIDE": 1, "L": 1}, Witness: []string{"entry-accepted", "entry-rejected", "getbytes-accepted", "getfile-accepted", "data-file-present"}},
+			{Fn: "VerifC05EntryLen", Quick: map[string]int{"LEN": 1, "L": 1}, Thorough: map[string]int{"LEN": 1, "L": 2}, Witness: []string{"truncated", "extended"}},
+			{Fn: "VerifC05EntryOut", Quick: map[string]int{}, Thorough: map[string]int{}, Witness: []string{"field-accepted", "field-rejected"}},
+		},
+		Bounds: map[string]string{
+			"quick":    "histories of <= 3 operations from {PutBytes, GetBytes, GetFile} over 2 action IDs with data of <= 1 symbolic byte; histories of <= 2 operations with one damage step (delete / truncate / overwrite one byte with any value at 2 (repair: 4) representative offsets / append one byte, on any index or output file); repair after any such damage; index entries differing from a valid one in a window of 2 arbitrary bytes at every 8th offset, every truncation length and 1-2 appended bytes; all 64 bytes of the OutputID field arbitrary",
+			"thorough": "data <= 2 bytes; damage at 15 representative offsets; windows at every offset",
+		},
+		Stubs: []string{"os.{Stat,Open,OpenFile,ReadFile,Remove,Chtimes,MkdirAll}", "(*os.File).{Read,Write,WriteString,WriteAt,Seek,Truncate,Close,Stat,WriteTo,ReadFrom}", "time.Now (concrete clock)", "crypto/sha256.{New,Sum256} -> injective pool-digest model"},
+		Assumptions: append([]string{"SHA-256 is modelled as an injective function onto a fixed pool of digests: the solver decides (in)equality of hashed inputs; other bit patterns of digests are not explored", "file-system operations are atomic and behave as the vfs model documents (POSIX-like)"}, commonAssumptions...),
+		Outside:     []string{"more than two action IDs / three operations", "index entries differing from a valid entry in more than 2 non-adjacent places (except the OutputID field, fully arbitrary)", "GODEBUG gocacheverify mode"},
+	},
 }
